@@ -3,6 +3,7 @@ package sim
 import (
 	"fmt"
 
+	"github.com/plgd-dev/go-coap/v3/message"
 	"github.com/plgd-dev/go-coap/v3/message/codes"
 	"github.com/plgd-dev/go-coap/v3/message/pool"
 )
@@ -61,6 +62,7 @@ func (p *PoolTracker) onPut(m any) {
 	// any later library write destroys the poison and is seen at the next acquire.
 	msg.SetCode(poisonCode)
 	msg.SetMessageID(poisonMID)
+	msg.SetType(message.Confirmable) // keeps the poisoned content encodable, so that a read-after-release shows on the wire
 	msg.SetSequence(poisonSeq)
 	msg.SetModified(false)
 }
